@@ -150,6 +150,7 @@ type RecSink struct {
 	FailAt  int   // 0 = never
 	Forever bool  // keep failing after FailAt
 	Partial bool  // accept half of the bytes of the failing call
+	Full    bool  // accept all bytes of the failing call (and still return the error)
 	Err     error // error to return
 	Failed  bool
 }
@@ -161,8 +162,11 @@ func (s *RecSink) Write(p []byte) (int, error) {
 		n := 0
 		if s.Partial {
 			n = len(p) / 2
-			s.Buf.Write(p[:n])
 		}
+		if s.Full {
+			n = len(p)
+		}
+		s.Buf.Write(p[:n])
 		return n, s.Err
 	}
 	return s.Buf.Write(p)
